@@ -158,12 +158,16 @@ func NewEnv(resources, fontDir string, names []string, lazy bool) (*Env, error) 
 	}
 	lg := canvas.NewLinearGradient(canvas.Point{X: 0, Y: 0}, canvas.Point{X: 30, Y: 10})
 	lg.Add(0, color.RGBA{255, 0, 0, 255})
-	lg.Add(0.4, color.RGBA{0, 170, 85, 255})
 	lg.Add(1, color.RGBA{0, 0, 255, 128})
+	// three stops: the PDF renderer panics on these (DESIGN.md §9), the others draw them
+	lg3 := canvas.NewLinearGradient(canvas.Point{X: 5, Y: 0}, canvas.Point{X: 25, Y: 20})
+	lg3.Add(0, color.RGBA{255, 0, 0, 255})
+	lg3.Add(0.4, color.RGBA{0, 170, 85, 255})
+	lg3.Add(1, color.RGBA{0, 0, 255, 128})
 	rg := canvas.NewRadialGradient(canvas.Point{X: 10, Y: 10}, 1, canvas.Point{X: 12, Y: 9}, 15)
 	rg.Add(0, color.RGBA{255, 255, 0, 255})
 	rg.Add(1, color.RGBA{85, 0, 170, 255})
-	e.Paints = []interface{}{canvas.Gradient(lg), canvas.Gradient(rg), canvas.Pattern(canvas.NewLineHatch(color.RGBA{0, 85, 170, 255}, 45, 1.2, 0.25)), canvas.Pattern(canvas.NewCrossHatch(color.RGBA{170, 0, 0, 255}, 15, 75, 1.5, 2, 0.2))}
+	e.Paints = []interface{}{canvas.Gradient(lg), canvas.Gradient(rg), canvas.Pattern(canvas.NewLineHatch(color.RGBA{0, 85, 170, 255}, 45, 1.2, 0.25)), canvas.Pattern(canvas.NewCrossHatch(color.RGBA{170, 0, 0, 255}, 15, 75, 1.5, 2, 0.2)), canvas.Gradient(lg3)}
 	if !lazy {
 		for i := range names {
 			if err := e.load(i); err != nil {
@@ -846,14 +850,18 @@ func drawCanvas(env *Env, d *Drawing) *canvas.Canvas {
 			case 2:
 				g := canvas.NewRadialGradient(canvas.Point{X: it.X + 5, Y: it.Y + 5}, 0, canvas.Point{X: it.X + 5, Y: it.Y + 5}, 12)
 				g.Add(0, fill)
-				g.Add(0.5, other)
-				g.Add(1, fill)
+				if int(it.X+it.Y)%2 == 0 {
+					g.Add(0.5, other) // a third stop (PDF panics on it, DESIGN.md §9)
+					g.Add(1, fill)
+				} else {
+					g.Add(1, other)
+				}
 				ctx.SetFillGradient(g)
 			case 3:
 				ctx.SetFillPattern(canvas.NewLineHatch(fill, 30, 1.5, 0.3))
 			case 4:
 				ctx.SetFillPattern(canvas.NewCrossHatch(other, 0, 60, 2, 2.5, 0.25))
-			case 5, 6, 7, 8:
+			case 5, 6, 7, 8, 9:
 				// a paint object shared by all canvases of the run (like a shared font)
 				switch pt := env.Paints[(it.Paint-5)%len(env.Paints)].(type) {
 				case canvas.Gradient:
